@@ -27,4 +27,34 @@ for c in $checks; do
   done
   echo "selftest $c: ok so far ($runs runs)"
 done
-[ $bad = 0 ] && echo "SELFTEST OK: $runs runs agree" || { echo "SELFTEST FAILED"; exit 1; }
+# rare-condition probes: a probe stuck at zero means the workload or fault mix no longer reaches the
+# situation it is there for (fails the selftest, not a property)
+python3 - "$VERIF_OUTDIR/evidence" <<'PY' || bad=1
+import json, sys, os
+want = {
+ 'C01': ['raw_word_rejected'],
+ 'C02': ['config_with_rejected_first_candidates', 'swept_to_depth_2L_through_rejected_candidates', 'all_candidates_fail_stream', 'colliding_sibling_recipes_evaluated_first'],
+ 'C03': ['last_alphabet_index_drawn', 'generation_with_rejected_candidate', 'constant_choice_stream', 'all_candidates_fail_stream'],
+ 'C04': ['non_uniform_law_with_fixed_point_words'],
+ 'C05': ['last_index_drawn', 'empty_separator_from_function', 'length_1', 'shipped_list_walk', 'earlier_passwords_reinspected_after_other_recipe'],
+ 'C06': ['non_uniform_law_min_entropy_case', 'char_config_with_rejection_mass', 'length_128_or_more', 'alphabet_of_200_or_more_characters'],
+ 'C08': ['input_with_title_cased_twin', 'twin_visited_before_lower_case_form'],
+ 'C09': ['fault_at_last_read', 'fault_inside_separator_generation', 'fault_on_the_read_after_a_maximal_raw_word', 'dependence_on_source_checked'],
+ 'C10': ['input_with_title_cased_twin', 'constructed_in_place_on_reused_backing_array', 'empty_input'],
+ 'C11': ['multibyte_token_sequences', 'token_over_255_chars', 'token_254_or_255_chars'],
+ 'C13': ['all_attempts_fail_stream', 'success_on_last_permitted_attempt_stream', 'wordlist_recipe_without_list', 'wordlist_recipe_with_empty_list_value', 'exclusion_emptied_a_required_set'],
+ 'C14': ['preemption_possible_between_reset_and_refill_of_required_sets'],
+ 'C18': ['generation_with_rejected_candidates', 'exhausted_all_attempts', 'duplicate_word_notice_emitted'],
+}
+ok = True
+for cid, probes in sorted(want.items()):
+    p = os.path.join(sys.argv[1], cid + '.json')
+    if not os.path.exists(p):
+        continue
+    got = json.load(open(p))['coverage'].get('rare_condition_probes', {})
+    for pr in probes:
+        if not got.get(pr):
+            print('SELFTEST PROBE STUCK AT ZERO: %s %s' % (cid, pr)); ok = False
+sys.exit(0 if ok else 1)
+PY
+[ $bad = 0 ] && echo "SELFTEST OK: $runs runs agree, probes reached" || { echo "SELFTEST FAILED"; exit 1; }
